@@ -506,6 +506,13 @@ def multimethodEvolve [BEq α] [LT α] [DecidableLT α] [Add α] (zero : α) (to
     let (st', tape) ← multimethodSelect zero total newProbs counts st tape
     pure (((kids, st.next), st'), tape)
 
+/-- `[counts[i] / float(sum(counts)) for i in range(len(variators))]`; `ofNat` is the conversion `float(...)` -/
+def mmProbs [Div α] (ofNat : Nat → α) (counts : List Nat) : List α :=
+  counts.map fun c => ofNat c / ofNat counts.sum
+
+/-- `[1.0 / len(variators) for _ in range(len(variators))]` -/
+def mmInitProbsG [Div α] (one : α) (ofNat : Nat → α) (n : Nat) : List α := List.replicate n (one / ofNat n)
+
 /-- the arity a `Multimethod` reports between calls: that of the variator selected for the next call -/
 def multimethodArity (vs : List (Oper α)) (st : MMState α) : Nat := (vs[st.next]?.map (·.arity)).getD 0
 end
